@@ -5099,23 +5099,26 @@ impl<'a> YamlString<'a> {
 
         let line_indent = pos - line_start;
 
-        // Check if we start with `-` (sequence item indicator)
-        if pos < text.len() && text[pos] == b'-' {
-            // Check if followed by space or tab (block sequence indicator)
-            if pos + 1 < text.len()
-                && (text[pos + 1] == b' ' || text[pos + 1] == b'\t' || text[pos + 1] == b'\n')
-            {
-                // Check if there's a `:` between `-` and the indicator
-                // If so, it's `- key: |` and we should return line_indent + 2
-                // If not, it's `- |` and we should return line_indent
-                let has_colon = text
-                    .get((pos + 2)..indicator_pos)
-                    .is_some_and(|slice| slice.contains(&b':'));
-                if has_colon {
-                    return line_indent + 2;
-                }
-                return line_indent;
+        // Walk the `- ` indicators that open (possibly nested, possibly widely spaced)
+        // compact collections on this line: `- - |`, `-   key: |`. The scalar's base is
+        // the column of the innermost entry — the key's own column when a `key:`
+        // stands between the last dash and the indicator, else the last dash's.
+        let mut last_dash = None;
+        while pos < indicator_pos
+            && text[pos] == b'-'
+            && matches!(text.get(pos + 1), Some(b' ' | b'\t' | b'\n'))
+        {
+            last_dash = Some(pos - line_start);
+            pos += 1;
+            while pos < indicator_pos && matches!(text[pos], b' ' | b'\t') {
+                pos += 1;
             }
+        }
+        if let Some(dash_col) = last_dash {
+            let has_colon = text
+                .get(pos..indicator_pos)
+                .is_some_and(|slice| slice.contains(&b':'));
+            return if has_colon { pos - line_start } else { dash_col };
         }
 
         // Otherwise, key indent is the line's leading spaces
